@@ -177,13 +177,13 @@ func CompareIndep(m *Model, data []byte) *IndepResult {
 			if len(t.Members) != len(fields) {
 				add("indep-type", p, "stored compound has %d members, created with %d", len(t.Members), len(fields))
 			} else {
-				off := uint32(0)
+				offs, _ := cmpOffsets(s.Type)
 				for i, f := range fields {
 					m := t.Members[i]
+					off := offs[i]
 					if m.Name != f.name || m.Offset != off || m.Type == nil || m.Type.Size != f.size || m.Type.Class != int(f.class) {
 						add("indep-type", p, "stored compound member %d = %q @%d %+v, created %q @%d class %d size %d", i, m.Name, m.Offset, m.Type, f.name, off, f.class, f.size)
 					}
-					off += f.size
 				}
 			}
 		case "opaque":
